@@ -121,3 +121,6 @@ class Tolerancing:
 
         for compensator in self.compensator.variables:
             compensator.reset()
+
+        # pickups and solves were re-evaluated by the compensator optimizer
+        self.optic.update()
